@@ -10,6 +10,14 @@ Translated (anything unsupported inside them is a *translation problem*, never s
 
   featuresTables / recordsTables   ``table_names = <expr>`` in get_features_matching / get_records_matching
                                    (which tables a query visits, as a function of on_alignment and self.table_names)
+  countTables                      the same assignment in num_matches
+  featuresKeepOa / recordsKeepOa / countKeepOa
+                                   the per-table copy of the arguments in the `for table_name in table_names` loop of
+                                   get_features_matching / get_records_matching / num_matches: `<copy> = {**kwargs}`, then
+                                   `<copy>.pop('on_alignment', None)` under an `if <test on table_name>` (body or else
+                                   branch); emitted as "does the table called table_name still get on_alignment".  The copy
+                                   must be what the loop hands on (`**<copy>` / `conditions=<copy>`) and must not be changed
+                                   in any other way, else translation problem
   subsetStart / subsetStop         ``start = <expr>`` / ``stop = <expr>`` at the top of subset() (normalisation of the bounds)
   attrWrapRecords / attrWrapCount  the test of ``if <test>: kwargs["attributes"] = f'%{...}%'`` in _get_records_matching and
                                    in num_matches, as a function of the attributes value
@@ -143,6 +151,8 @@ class Expr:
             return t if isinstance(op, ast.In) else f"(!{t})"
         if type(op) in CMP and self.typ(a) == "int" and self.typ(b) == "int":
             return f"decide ({self.val(a)} {CMP[type(op)]} {self.val(b)})"
+        if isinstance(op, (ast.Eq, ast.NotEq)) and self.typ(a) == "str" and self.typ(b) == "str":
+            return f"decide ({self.val(a)} {CMP[type(op)]} {self.val(b)})"
         raise TranslationError(f"unsupported comparison `{src(a)} {type(op).__name__} {src(b)}`")
 
 
@@ -200,6 +210,51 @@ def _attr_wrap_test(fn):
     raise TranslationError(f"{fn.name}: no `if ...: kwargs['attributes'] = ...`")
 
 
+def _keep_oa(fn):
+    """(test, negate) of the per-table `on_alignment` handling in the `for table_name in table_names` loop; test None = constant"""
+    loops = [n for n in ast.walk(fn) if isinstance(n, ast.For) and src(n.target) == "table_name" and src(n.iter) == "table_names"]
+    if len(loops) != 1:
+        raise TranslationError(f"{fn.name}: expected one `for table_name in table_names` loop, found {len(loops)}")
+    loop = loops[0]
+    copies = [st for st in loop.body if isinstance(st, ast.Assign) and isinstance(st.value, ast.Dict) and st.value.keys == [None]
+              and src(st.value.values[0]) == "kwargs" and isinstance(st.targets[0], ast.Name)]
+    if len(copies) != 1:
+        raise TranslationError(f"{fn.name}: expected one `<copy> = {{**kwargs}}` in the table loop, found {len(copies)}")
+    copy = copies[0].targets[0].id
+    if loop.body.index(copies[0]) != min(i for i, st in enumerate(loop.body) if any(isinstance(x, ast.Name) and x.id == copy for x in ast.walk(st))):
+        raise TranslationError(f"{fn.name}: `{copy}` is used before it is copied from kwargs")
+    handed = [c for c in ast.walk(loop) if isinstance(c, ast.Call) and any(isinstance(k.value, ast.Name) and k.value.id == copy and k.arg in (None, "conditions") for k in c.keywords)]
+    if len(handed) != 1:
+        raise TranslationError(f"{fn.name}: `{copy}` is not handed on exactly once as **{copy} / conditions={copy}")
+    if any(isinstance(c, ast.Call) and any(src(k.value) == "kwargs" for k in c.keywords) for c in ast.walk(loop)):
+        raise TranslationError(f"{fn.name}: the table loop hands on `kwargs` itself")
+
+    def is_pop(st):
+        return isinstance(st, ast.Expr) and src(st.value) == f"{copy}.pop('on_alignment', None)"
+
+    # every other way of changing the copy is unsupported
+    for n in ast.walk(loop):
+        if isinstance(n, ast.Call) and isinstance(n.func, ast.Attribute) and src(n.func.value) == copy and src(n) != f"{copy}.pop('on_alignment', None)":
+            raise TranslationError(f"{fn.name}: unsupported `{src(n)}`")
+        if isinstance(n, (ast.Subscript, ast.Name)) and isinstance(getattr(n, "ctx", None), (ast.Store, ast.Del)) and \
+                (src(n.value) if isinstance(n, ast.Subscript) else n.id) == copy and n is not copies[0].targets[0]:
+            raise TranslationError(f"{fn.name}: unsupported change of `{copy}`: `{src(n)}`")
+    pops = [n for n in ast.walk(loop) if is_pop(n)]
+    if not pops:
+        return None, "true", copy
+    if len(pops) != 1:
+        raise TranslationError(f"{fn.name}: on_alignment is popped {len(pops)} times")
+    if pops[0] in loop.body:
+        return None, "false", copy
+    for st in loop.body:
+        if isinstance(st, ast.If):
+            if pops[0] in st.body:
+                return st.test, "neg", copy
+            if pops[0] in st.orelse:
+                return st.test, "pos", copy
+    raise TranslationError(f"{fn.name}: `{src(pops[0])}` is not directly under an if / else of the table loop")
+
+
 def translate(path: Path):
     tree = ast.parse(Path(path).read_text())
     problems, defs, seen = [], [], {}
@@ -221,6 +276,20 @@ def translate(path: Path):
 
     emit("featuresTables", "tables visited by get_features_matching", "(on_alignment : Option Bool) (table_names : List String) : List String", tables("get_features_matching"))
     emit("recordsTables", "tables visited by get_records_matching", "(on_alignment : Option Bool) (table_names : List String) : List String", tables("get_records_matching"))
+
+    emit("countTables", "tables visited by num_matches", "(on_alignment : Option Bool) (table_names : List String) : List String", tables("num_matches"))
+
+    def keep(fname):
+        def make():
+            t, how, copy = _keep_oa(_func(tree, fname, M))
+            if t is None:
+                return how, f"{copy}: on_alignment {'never popped' if how == 'true' else 'always popped'}"
+            e = Expr(dict(table_name="str")).test(t)
+            return (f"(!{e})" if how == "neg" else e), f"{copy}.pop('on_alignment') {'if' if how == 'neg' else 'unless'} {src(t)}"
+        return make
+
+    for nm, fname in (("featuresKeepOa", "get_features_matching"), ("recordsKeepOa", "get_records_matching"), ("countKeepOa", "num_matches")):
+        emit(nm, f"{fname}: the table called table_name is still asked for on_alignment", "(table_name : String) : Bool", keep(fname))
 
     def bound(name):
         def make():
